@@ -192,6 +192,13 @@ class AstToSqlVisitor(visitor.NodeVisitor):
         if isinstance(node.right, (ast.BoolOp, ast.Compare)):
             right = f"({right})"
 
+        #  'null eq/ne x' means the same as 'x eq/ne null'
+        if isinstance(node.left, ast.Null) and isinstance(
+            node.comparator, (ast.Eq, ast.NotEq)
+        ):
+            left, right = right, left
+            node = ast.Compare(node.comparator, node.right, node.left)
+
         #  'eq/ne null' should become 'IS (NOT) NULL' instead of '(!)= NULL'
         if isinstance(node.right, ast.Null):
             if isinstance(node.comparator, ast.Eq):
